@@ -25,6 +25,12 @@ fn lists() -> Vec<Vec<Det>> {
         vec![p().feat(&look(0.0, 0.0), 0.9), q().feat(&look(0.9, 0.1), 0.9), s().shift(40.0, 0.0).feat(&look(0.2, 0.8), 0.9)],
         vec![p1().feat(&look(0.1, 0.05), 0.8), q().shift(1.0, 0.0).feat(&look(0.8, 0.2), 0.8), s().shift(41.0, 0.0).feat(&look(0.3, 0.7), 0.8)],
         vec![p().shift(2.0, 1.0).feat(&look(0.42, 0.12), 0.9), q().shift(2.0, 0.0).feat(&look(0.55, 0.3), 0.9), s().shift(42.0, 0.0).feat(&look(0.33, 0.45), 0.9)],
+        // 10-11: a NEAR tie that is not a tie (IoU threshold 0.05): tracks X, Z, Y; detection A overlaps X (.818) and Y
+        // (.667), detection B overlaps X (.521), Y (.369) and weakly Z (.061); the assignment A->Y, B->X beats
+        // A->X, B->Y by 1.4e-5 of total weight - fourteen times the resolution of the voting weights. Z lives in a
+        // shard where only B has something to compare with, so B's first distance can arrive before A's
+        vec![Det::ltwh(0.0, 0.0, 10.0, 10.0), Det::ltwh(8.5, 7.0, 10.0, 10.0), Det::ltwh(3.0, 0.0, 10.0, 10.0)],
+        vec![Det::ltwh(1.0, 0.0, 10.0, 10.0), Det::ltwh(0.4891468, 2.8, 10.0, 10.0)],
     ]
 }
 
@@ -53,12 +59,12 @@ fn run(cfg: &TrkCfg, ls: &[Vec<Det>], h: &[Call]) -> Obs {
 
 pub fn run_check(tier: Tier) -> Report {
     let rep = Report::new("C05", tier);
-    rep.set_rule("(1) every history of depth <= 3 (Sort: 3 quick / 4 thorough) over predict(scene in {0,5}, one of 7 tie-free lists) for shard counts 2..8 against the 1-shard transcript (ids included for the simple trackers), plus a contention family (two overlapping tracks, two detections that prefer the same track so that one falls back to its second choice, 4 id layouts x 30 position pairs, shards 2..5); (2) for Sort and VisualSort with 2 and 3 shards, IoU and Mahalanobis, histories of three calls with 2-3 detections (appearing, continuing, approaching, crossing objects; for VisualSort also three objects with mutually admissible looks under a wide visual threshold, so that appearance votes for one track arrive from several workers in schedule-dependent order): every schedule of the store workers and the caller at command granularity within each call in turn (window = one call; 3 shards: preemption bound 2 quick / 3 thorough; thorough also 4 shards at bound 2), plus a fine tier branching at every synchronisation operation with at most 2 (thorough 3) departures from the default schedule; oracle: records and the canonical store dump after every call equal the 1-shard default-schedule reference. states = executions.");
+    rep.set_rule("(1) every history of depth <= 3 (Sort: 3 quick / 4 thorough) over predict(scene in {0,5}, one of 7 tie-free lists) for shard counts 2..8 against the 1-shard transcript (ids included for the simple trackers), plus a contention family (two overlapping tracks, two detections that prefer the same track so that one falls back to its second choice, 4 id layouts x 30 position pairs, shards 2..5); (2) for Sort and VisualSort with 2 and 3 shards, IoU and Mahalanobis, histories of three calls with 2-3 detections (appearing, continuing, approaching, crossing objects; for VisualSort also three objects with mutually admissible looks under a wide visual threshold, so that appearance votes for one track arrive from several workers in schedule-dependent order; for Sort also a near tie - two assignments 1.4e-5 apart in total weight - whose rows reach the voting in schedule-dependent order): every schedule of the store workers and the caller at command granularity within each call in turn (window = one call; 3 shards: preemption bound 2 quick / 3 thorough; thorough also 4 shards at bound 2), plus a fine tier branching at every synchronisation operation with at most 2 (thorough 3) departures from the default schedule; oracle: records and the canonical store dump after every call equal the 1-shard default-schedule reference. states = executions.");
     rep.assume("windows are joined by checked state equality: the dump after each call is identical under every schedule, so later windows are explored from the default-schedule representative");
     super::c04::run_c05_configs(&rep, tier);
 
     let ls = Arc::new(lists());
-    let histories: Vec<Vec<Call>> = vec![vec![(0, 0), (0, 1), (0, 3)], vec![(0, 0), (0, 2), (0, 3)], vec![(0, 1), (5, 0), (0, 2)], vec![(0, 4), (0, 1), (0, 2)], vec![(0, 5), (0, 6)], vec![(0, 7), (0, 8), (0, 9)]];
+    let histories: Vec<Vec<Call>> = vec![vec![(0, 0), (0, 1), (0, 3)], vec![(0, 0), (0, 2), (0, 3)], vec![(0, 1), (5, 0), (0, 2)], vec![(0, 4), (0, 1), (0, 2)], vec![(0, 5), (0, 6)], vec![(0, 7), (0, 8), (0, 9)], vec![(0, 10), (0, 11)]];
     let mut scen = BTreeMap::new();
     let mut total = 0u64;
     for kind in [Kind::Sort, Kind::VisualSort] {
@@ -72,7 +78,11 @@ pub fn run_check(tier: Tier) -> Report {
                     if hi == 5 && (kind != Kind::VisualSort || pos != Pos::Iou(0.3) || shards == 4 || shards == 3 && tier == Tier::Quick) {
                         continue;
                     }
-                    if hi != 5 && tier == Tier::Quick && (hi >= 2 && hi != 4 && (shards == 3 || pos == Pos::Maha) || hi == 4 && (shards == 3 || pos == Pos::Maha || kind == Kind::VisualSort) || kind == Kind::VisualSort && shards == 3 && hi >= 1) {
+                    // history 6 is the near-tie history: Sort with IoU threshold 0.05 only
+                    if hi == 6 && (kind != Kind::Sort || pos != Pos::Iou(0.3) || shards == 4) {
+                        continue;
+                    }
+                    if hi != 5 && hi != 6 && tier == Tier::Quick && (hi >= 2 && hi != 4 && (shards == 3 || pos == Pos::Maha) || hi == 4 && (shards == 3 || pos == Pos::Maha || kind == Kind::VisualSort) || kind == Kind::VisualSort && shards == 3 && hi >= 1) {
                         continue;
                     }
                     if rep.out_of_time() {
@@ -85,6 +95,9 @@ pub fn run_check(tier: Tier) -> Report {
                     cfg.max_idle = 2;
                     if hi == 5 {
                         cfg.vis.metric = Vis::Euclid(1.5);
+                    }
+                    if hi == 6 {
+                        cfg.pos = Pos::Iou(0.05);
                     }
                     let mut ref_cfg = cfg.clone();
                     ref_cfg.shards = 1;
